@@ -68,6 +68,56 @@ var variants = []variant{
 	{"duration+1", func(r *rand.Rand, f *fields) bool { f.dur++; return f.dur != 0 }},
 	{"duration-high-bit", func(r *rand.Rand, f *fields) bool { f.dur ^= 1 << 63; return f.dur != 0 }},
 	{"one-address", func(r *rand.Rand, f *fields) bool { f.parts[r.Intn(len(f.parts))] = gen.WalletAddr(r); return true }},
+	{"one-participant-moved-to-another-backend", func(r *rand.Rand, f *fields) bool {
+		// the same key, but registered with another backend: another participant as far as the ID goes
+		if len(gen.ExtraBackends) == 0 {
+			return false
+		}
+		i := r.Intn(len(f.parts))
+		for id, a := range f.parts[i] {
+			to := gen.ExtraBackends[r.Intn(len(gen.ExtraBackends))]
+			if id == to {
+				to = gen.B
+			}
+			if _, has := f.parts[i][to]; has {
+				return false
+			}
+			na := gen.OnBackend(to, a)
+			if na == nil {
+				return false
+			}
+			m := map[wallet.BackendID]wallet.Address{}
+			for k, v := range f.parts[i] {
+				if k != id {
+					m[k] = v
+				}
+			}
+			m[to] = na
+			f.parts[i] = m
+			return true
+		}
+		return false
+	}},
+	{"one-participant-on-one-backend-more", func(r *rand.Rand, f *fields) bool {
+		if len(gen.ExtraBackends) == 0 {
+			return false
+		}
+		i := r.Intn(len(f.parts))
+		for _, a := range f.parts[i] {
+			for _, to := range append([]wallet.BackendID{gen.B}, gen.ExtraBackends...) {
+				if _, has := f.parts[i][to]; !has {
+					m := map[wallet.BackendID]wallet.Address{to: gen.OnBackend(to, a)}
+					for k, v := range f.parts[i] {
+						m[k] = v
+					}
+					f.parts[i] = m
+					return true
+				}
+			}
+			return false
+		}
+		return false
+	}},
 	{"last-address", func(r *rand.Rand, f *fields) bool { f.parts[len(f.parts)-1] = gen.WalletAddr(r); return true }},
 	{"order-swap-01", func(r *rand.Rand, f *fields) bool { f.parts[0], f.parts[1] = f.parts[1], f.parts[0]; return true }},
 	{"order-rotate", func(r *rand.Rand, f *fields) bool {
@@ -224,7 +274,7 @@ func one(r *ev.Run, rng *rand.Rand, sample, big1024 bool) {
 	// every state a machine creates carries the ID of its parameters
 	if n <= 8 {
 		idx := rng.Intn(n)
-		m, err := channel.NewStateMachine(gen.AccMap(ps[idx].Acc), *p)
+		m, err := channel.NewStateMachine(ps[idx].AccMap(), *p)
 		r.Case("machine-init|"+shape, nontriv)
 		if err != nil {
 			fail("machine/new", fmt.Sprintf("NewStateMachine failed: %v", err), nil)
@@ -262,10 +312,32 @@ func constraints(r *ev.Run, rng *rand.Rand, n int) {
 		{"nil-app", func(f *fields) { f.app = nil }},
 		{"app-neither-state-nor-action", func(f *fields) { f.app = bareApp{gen.Payment.Def()} }},
 		{"nil-nonce", func(f *fields) { f.nonce = nil }},
+		{"empty-address-map-for-a-later-participant", func(f *fields) {
+			f.parts[len(f.parts)-1] = map[wallet.BackendID]wallet.Address{}
+		}},
+		{"empty-address-map-for-participant-0", func(f *fields) { f.parts[0] = map[wallet.BackendID]wallet.Address{} }},
+		{"address-under-the-key-of-another-registered-backend", func(f *fields) {
+			if len(gen.ExtraBackends) == 0 {
+				f.parts[0] = nil
+				return
+			}
+			i := rng.Intn(len(f.parts))
+			for id, a := range f.parts[i] {
+				to := gen.ExtraBackends[0]
+				if id == to {
+					to = gen.B
+				}
+				f.parts[i] = map[wallet.BackendID]wallet.Address{to: a} // the address itself reports id
+				break
+			}
+		}},
 		{"nonce-33-bytes", func(f *fields) { f.nonce = new(big.Int).Lsh(big.NewInt(1), 256) }},
 		{"address-under-wrong-backend-key", func(f *fields) {
 			i := rng.Intn(len(f.parts))
-			f.parts[i] = map[wallet.BackendID]wallet.Address{7: f.parts[i][gen.B]}
+			for _, a := range f.parts[i] {
+				f.parts[i] = map[wallet.BackendID]wallet.Address{7: a} // no backend 7; and the address says another id
+				break
+			}
 		}},
 	}
 	for i := 0; i < n; i++ {
